@@ -78,7 +78,12 @@ func (k *KVStore) isTableExpired(recycledAt int64) bool {
 
 func (k *KVStore) isCompactionOK(t *table.Table) bool {
 	s := t.Stats()
-	return float64(s.Garbage) >= float64(s.Allocated)*maxGarbageRatio
+	// Only tables that stopped accepting writes are compacted, so what a table holds never
+	// grows again: measure the garbage against the bytes written to the table, not against
+	// its capacity. A table that was closed while it was mostly empty (the next entry did
+	// not fit) would otherwise never reach the ratio, even with nothing but garbage in it.
+	written := s.Inuse + s.Garbage
+	return s.Garbage > 0 && float64(s.Garbage) >= float64(written)*maxGarbageRatio
 }
 
 func (k *KVStore) Compaction() (bool, error) {
